@@ -51,6 +51,15 @@ def race_scenarios(rng, tier):
         for n in (2, 4):
             out.append({"components": [dev("fast", cb={"kind": "period", "p": 100_000}), dev("x"), dev("y", {"i": ["x", "o"]})], "n_ticks": 14 + 3 * n,
                         "stims": [{"real": 50_111 + k * gap, "comp": "x" if k % 3 else "y"} for k in range(n)] + [{"real": 50_111 + n * gap + 37, "comp": "x"}]})
+    # epoch-sized simulation times (beyond 2**53 ns, where a double has a resolution of 256 ns), slowed-down simulations
+    # and interrupts within microseconds of a tick: whatever is computed for the stamp must not round below the last tick
+    for t0 in (1_700_000_000_000_000_005, 1_700_000_000_000_000_123, 1_700_000_000_000_000_200, 2**53 + 12_345_677):
+        for sp in ([1, 100], [1, 3], [1, 1]):
+            P1 = 1_000_000
+            real_p = P1 * sp[1] // sp[0]
+            out.append({"components": [dev("a", cb={"kind": "period", "p": P1}), dev("x"), dev("y", {"i": ["x", "o"]})], "n_ticks": 9, "t0": t0, "speed": sp,
+                        "stims": [{"real": real_p + 3_000, "comp": "x"}, {"real": real_p + 9_500, "comp": "y"}, {"real": real_p + 61_000, "comp": "x"},
+                                  {"real": real_p + 140_000, "comp": "y"}, {"real": 2 * real_p + 700, "comp": "x"}, {"real": 2 * real_p + 90_000, "comp": "x"}]})
     return out
 
 
